@@ -1,7 +1,7 @@
 //@ assume: Transaction, PoolEntry, Pool, the blockchain adapter and the pool adapter are abstract; fees are uninterpreted functions of a transaction's kernels (shifted_fee / accept_fee are decided on the real code in C14/weights); convert_tx_v2 replaces inputs only and therefore preserves both fee functions (assumed); is_acceptable carries the contract proved of the real body in C14/is_acceptable; the pools log the entries they accept
 //@ assume: T6 rewrites: `let ref tx = entry.tx;` / `let ref entry = ..` => `let tx = &entry.tx;` / by-value binding used by reference; `acceptability.as_ref().err() == Some(&PoolError::OverCapacity)` => helper is_over_capacity; the coinbase-input iterator chain + slice conversion => helper coinbase_inputs_of; `.map_err(PoolError::InvalidTx)?` => `?`; `extra_tx.clone()` => helper clone; log macros removed
 //@ assume: decided here: TransactionPool::add_to_pool admits a transaction (into the stempool or the txpool) only if the entry it stores -- after de-aggregation -- passed verify_kernel_variants, PAYS AT LEAST THE MINIMUM FEE FOR ITS WEIGHT, validates standalone under the transaction weight limit, meets the lock-height and coinbase-maturity rules, and was accepted by the pool's own joint validation; reconcile_block always runs the full re-validation of the txpool and then of the stempool
-//@ assumed_items: 30
+//@ assumed_items: 27
 //@ fns: TransactionPool::add_to_pool, TransactionPool::reconcile_block
 global size_of usize == 8;
 #[verifier::external_body]
@@ -44,7 +44,10 @@ fn is_over_capacity(a: &Result<(), PoolError>) -> (r: bool) ensures r == (*a mat
 #[verifier::external_body]
 fn coinbase_inputs_of(spent_utxo: &Vec<OutputIdentifier>) -> (r: Inputs) { unimplemented!() }
 
-pub struct Pool { pub added: Ghost<Seq<PoolEntry>>, pub reconciled_block: Ghost<int>, pub reconciled_full: Ghost<int>, pub _p: u8 }
+/// `gen`: generation of the pool's CONTENT (bumped whenever entries are added or removed); `synced`: the generation of the OTHER pool's content this pool was last validated / reconciled against (meaningful for the stempool: stem transactions are kept jointly valid with the public pool)
+pub struct Pool { pub added: Ghost<Seq<PoolEntry>>, pub reconciled_block: Ghost<int>, pub reconciled_full: Ghost<int>, pub gen: Ghost<int>, pub synced: Ghost<int>, pub _p: u8 }
+/// the generation of the pool content an aggregate was built from
+pub uninterp spec fn sp_agg_gen(o: Option<Transaction>) -> int;
 impl Pool {
     #[verifier::external_body]
     pub fn contains_tx(&self, tx: &Transaction) -> (r: bool) { unimplemented!() }
@@ -53,19 +56,21 @@ impl Pool {
     pub fn size(&self) -> (r: usize) ensures r == self.sp_size() { unimplemented!() }
     #[verifier::external_body]
     pub fn add_to_pool(&mut self, entry: PoolEntry, extra: Option<Transaction>, header: &BlockHeader) -> (r: Result<(), PoolError>)
-        ensures r.is_ok() ==> final(self).added@ == old(self).added@.push(entry), r.is_err() ==> final(self).added@ == old(self).added@ { unimplemented!() }
+        ensures r.is_ok() ==> final(self).added@ == old(self).added@.push(entry) && final(self).gen@ == old(self).gen@ + 1 && (extra is Some ==> final(self).synced@ == sp_agg_gen(extra)) && (extra is None ==> final(self).synced@ == old(self).synced@),
+            r.is_err() ==> final(self).added@ == old(self).added@ && final(self).gen@ == old(self).gen@ && final(self).synced@ == old(self).synced@ { unimplemented!() }
     #[verifier::external_body]
-    pub fn all_transactions_aggregate(&self, extra: Option<Transaction>) -> (r: Result<Option<Transaction>, PoolError>) { unimplemented!() }
+    pub fn all_transactions_aggregate(&self, extra: Option<Transaction>) -> (r: Result<Option<Transaction>, PoolError>) ensures r matches Ok(a) ==> sp_agg_gen(a) == self.gen@ { unimplemented!() }
     #[verifier::external_body]
     pub fn locate_spends(&self, tx: &Transaction, extra: Option<Transaction>) -> (r: Result<(Vec<OutputIdentifier>, Vec<OutputIdentifier>), PoolError>) { unimplemented!() }
     #[verifier::external_body]
     pub fn reconcile(&mut self, extra: Option<Transaction>, header: &BlockHeader) -> (r: Result<(), PoolError>)
-        ensures final(self).added@ == old(self).added@, final(self).reconciled_full@ == old(self).reconciled_full@ + 1, final(self).reconciled_block@ == old(self).reconciled_block@ { unimplemented!() }
+        ensures final(self).added@ == old(self).added@, final(self).reconciled_full@ == old(self).reconciled_full@ + 1, final(self).reconciled_block@ == old(self).reconciled_block@,
+            r.is_ok() ==> final(self).synced@ == sp_agg_gen(extra) { unimplemented!() }
     #[verifier::external_body]
     pub fn reconcile_block(&mut self, block: &Block)
         ensures final(self).added@ == old(self).added@, final(self).reconciled_block@ == old(self).reconciled_block@ + 1, final(self).reconciled_full@ == old(self).reconciled_full@ { unimplemented!() }
     #[verifier::external_body]
-    pub fn evict_transaction(&mut self) ensures final(self).added@ == old(self).added@ { unimplemented!() }
+    pub fn evict_transaction(&mut self) ensures final(self).added@ == old(self).added@, final(self).synced@ == old(self).synced@, final(self).gen@ == old(self).gen@ + 1 { unimplemented!() }
 }
 #[verifier::external_body]
 pub struct Chain { _p: u8 }
@@ -99,17 +104,29 @@ impl TransactionPool {
         ensures r matches Ok(e) ==> sp_valid_as_tx(e.tx) && sp_shifted_fee(e.tx) == sp_shifted_fee(entry.tx) && sp_accept_fee(e.tx) == sp_accept_fee(entry.tx)
             && sp_variants_ok(e.tx) == sp_variants_ok(entry.tx) && sp_lock_height_ok(e.tx) == sp_lock_height_ok(entry.tx) { unimplemented!() }
     #[verifier::external_body]
-    fn add_to_stempool(&mut self, entry: &PoolEntry, header: &BlockHeader, extra: Option<Transaction>) -> (r: Result<(), PoolError>)
-        ensures r.is_ok() ==> final(self).stempool.added@ == old(self).stempool.added@.push(*entry), r.is_err() ==> final(self).stempool.added@ == old(self).stempool.added@,
-                final(self).txpool.added@ == old(self).txpool.added@ { unimplemented!() }
-    #[verifier::external_body]
-    fn add_to_txpool(&mut self, entry: &PoolEntry, header: &BlockHeader) -> (r: Result<(), PoolError>)
-        ensures r.is_ok() ==> final(self).txpool.added@ == old(self).txpool.added@.push(*entry), r.is_err() ==> final(self).txpool.added@ == old(self).txpool.added@,
-                final(self).stempool.added@ == old(self).stempool.added@ { unimplemented!() }
-    #[verifier::external_body]
-    fn add_to_reorg_cache(&mut self, entry: &PoolEntry) ensures final(self).txpool.added@ == old(self).txpool.added@, final(self).stempool.added@ == old(self).stempool.added@ { unimplemented!() }
-    #[verifier::external_body]
-    pub fn evict_from_txpool(&mut self) ensures final(self).txpool.added@ == old(self).txpool.added@, final(self).stempool.added@ == old(self).stempool.added@ { unimplemented!() }
+    fn add_to_reorg_cache(&mut self, entry: &PoolEntry) ensures final(self).txpool == old(self).txpool, final(self).stempool == old(self).stempool { unimplemented!() }
+//@ extract pool/src/transaction_pool.rs :: impl TransactionPool::add_to_stempool
+//@   rewrite `entry.clone()` => `*entry` x?
+//@   ensures:
+//@+    r.is_ok() ==> final(self).stempool.added@ == old(self).stempool.added@.push(*entry), r.is_err() ==> final(self).stempool.added@ == old(self).stempool.added@,
+//@+    final(self).txpool == old(self).txpool,
+//@+    r.is_ok() && extra_tx is Some ==> final(self).stempool.synced@ == sp_agg_gen(extra_tx),
+//@+    r.is_ok() && extra_tx is None ==> final(self).stempool.synced@ == old(self).stempool.synced@,
+//@+    r.is_err() ==> final(self).stempool.synced@ == old(self).stempool.synced@,
+//@ end
+//@ extract pool/src/transaction_pool.rs :: impl TransactionPool::add_to_txpool
+//@   rewrite `entry.clone()` => `*entry` x?
+//@   ensures:
+//@+    r.is_ok() ==> final(self).txpool.added@ == old(self).txpool.added@.push(*entry) && final(self).txpool.gen@ == old(self).txpool.gen@ + 1
+//@+        // the stempool is reconciled against the NEW txpool content
+//@+        && final(self).stempool.synced@ == final(self).txpool.gen@,
+//@+    r.is_err() ==> final(self).txpool.added@ == old(self).txpool.added@ || final(self).txpool.added@ == old(self).txpool.added@.push(*entry),
+//@+    final(self).stempool.added@ == old(self).stempool.added@,
+//@ end
+//@ extract pool/src/transaction_pool.rs :: impl TransactionPool::evict_from_txpool
+//@   ensures:
+//@+    final(self).txpool.added@ == old(self).txpool.added@, final(self).stempool == old(self).stempool, final(self).txpool.gen@ == old(self).txpool.gen@ + 1,
+//@ end
 
     /// every entry the two pools accepted since `before` satisfies the admission rules
     pub open spec fn admitted_ok(before: TransactionPool, after: TransactionPool) -> bool {
@@ -127,8 +144,12 @@ impl TransactionPool {
 //@   rewrite `self.stempool.locate_spends(tx, extra_tx.clone())` => `self.stempool.locate_spends(tx, clone_opt_tx(&extra_tx))`
 //@   rewrite `\t\tlet coinbase_inputs: Vec<_> = spent_utxo\n\t\t\t.iter()\n\t\t\t.filter(|x| x.is_coinbase())\n\t\t\t.cloned()\n\t\t\t.collect();\n\t\tself.blockchain\n\t\t\t.verify_coinbase_maturity(&coinbase_inputs.as_slice().into())?;` => `\t\tself.blockchain.verify_coinbase_maturity(&coinbase_inputs_of(&spent_utxo))?;`
 //@   rewrite `let ref entry = self.convert_tx_v2(entry, &spent_pool, &spent_utxo)?;` => `let entry_v2 = self.convert_tx_v2(entry, &spent_pool, &spent_utxo)?; let entry = &entry_v2;`
+//@   requires:
+//@+    old(self).stempool.synced@ == old(self).txpool.gen@,
 //@   ensures:
 //@+    TransactionPool::admitted_ok(*old(self), *final(self)),
+//@+    // 'stem transactions are in addition jointly valid with the public pool': whenever the txpool's content changed, the stempool was reconciled against the content it has AT RETURN
+//@+    r.is_ok() ==> final(self).stempool.synced@ == final(self).txpool.gen@,
 //@   decreases:
 //@+    (if stem { 1nat } else { 0nat }),
 //@ end
